@@ -14,11 +14,28 @@ func stdB64(s string) string { return base64.StdEncoding.EncodeToString([]byte(s
 
 func runExtra(r *common.Rand) {
 	runCodec(r)
-	nc := run.Scale(300, 80000)
+	nc := run.Scale(300, 20000)
 	for i := 0; i < nc; i += 100 {
 		var batch []concCase
 		for j := i; j < nc && j < i+100; j++ {
 			batch = append(batch, genConc(r))
+		}
+		runConcBatch(batch)
+	}
+	// the same callers through the DynamicStore of store.go, with IsAuthConfigured calls mixed in
+	nd := run.Scale(100, 2000)
+	for i := 0; i < nd; i += 100 {
+		var batch []concCase
+		for j := i; j < nd && j < i+100; j++ {
+			cc := genConc(r)
+			cc.Dynamic = true
+			for t := range cc.Threads {
+				at := r.Intn(len(cc.Threads[t]) + 1)
+				ops := append([]opx{}, cc.Threads[t][:at]...)
+				ops = append(ops, opx{Op: "I"})
+				cc.Threads[t] = append(ops, cc.Threads[t][at:]...)
+			}
+			batch = append(batch, cc)
 		}
 		runConcBatch(batch)
 	}
@@ -34,6 +51,7 @@ func runExtra(r *common.Rand) {
 		run.Extra["crash_injection"] = "strace injection unavailable: K cases skipped"
 		run.Count("crash:strace-unavailable")
 	} else {
+		ioErrBudget = run.Scale(4, 40)
 		for _, cc := range fixedCrashes() {
 			runCrash(cc)
 		}
@@ -69,6 +87,7 @@ func replayExtra(c map[string]string) {
 			fmt.Fprintln(os.Stderr, "bad replay threads:", err)
 			os.Exit(2)
 		}
+		cc.Dynamic = c["dynamic"] == "true"
 		if d, ok := c["delay"]; ok && d != "null" && d != "" {
 			cc.Delay = &delaySpec{}
 			if err := json.Unmarshal([]byte(d), cc.Delay); err != nil {
@@ -87,8 +106,8 @@ func replayExtra(c map[string]string) {
 			}
 			runConcBatch(batch)
 		}
-	case "K":
-		cc := crashCase{Kind: "K", K: -1}
+	case "K", "KE":
+		cc := crashCase{Kind: c["kind"], K: -1}
 		if v, ok := c["init"]; ok && v != "null" {
 			s := v
 			cc.Init = &s
